@@ -34,7 +34,8 @@ def scratch_dir():
     if _scratch is None:
         base = os.path.join(VERIF_ROOT, ".scratch")
         os.makedirs(base, exist_ok=True)
-        _scratch = tempfile.mkdtemp(prefix="p%d_" % os.getpid(), dir=base)
+        # named after the run (the parent that started the workers) so that the parent can sweep what killed workers leave
+        _scratch = tempfile.mkdtemp(prefix="p%s_%d_" % (os.environ.get("VP_RUN_ID", "0"), os.getpid()), dir=base)
     return _scratch
 
 
